@@ -9,7 +9,9 @@ Bounded-exhaustive enumeration.
   vectors, zone law for exactly the two in-plane slots, right-handed determinant) and the
   returned normal against h a* + k b* + l c* of the conventional cell.
 * ``slab``: every plane of the |index| <= 2 subset x the same cells carrying 1-3 basis
-  atoms x three cut vectors (quick: cut c for every plane, cuts a and b for |index| <= 1):
+  atoms x three cut vectors (quick: all three cuts for |index| <= 1; planes with an index
+  of 2 only with cut c and only the member of each pair (hkl), (-h-k-l) whose first
+  non-zero index is positive - both signs of every plane are judged by ``basis``):
   FreeSurface (every offered shift index x slab options) and StackingFault (every shift
   index x every fault position between two atomic layers x a menu of fault displacements;
   quick: every position for the first and the last shift index, the lowest, middle and
@@ -41,8 +43,8 @@ chk = Check('C14', 'exploration',
             'basis: all (hkl) in [-B,B]^3\\0 (B=3 quick / 4 thorough) x cells (7 primitive families + centred '
             'settings f,i,a,b,c,t1,t2 + 1 seed cell) x cut vector a/b/c (quick: centred cells use all three cuts '
             'only for |index|<=2, cut c beyond), all (hkil) in [-B,B]^4 for the hexagonal cell (valid ones judged, '
-            'invalid ones must be refused); slab: all planes with |index|<=2 x cells with atoms x 3 cuts (quick: cut c '
-            'for all of them, cuts a and b for |index|<=1); for each '
+            'invalid ones must be refused); slab: all planes with |index|<=2 x cells with atoms x 3 cuts (quick: 3 cuts for '
+            '|index|<=1, planes containing an index 2 with cut c and first non-zero index > 0 only); for each '
             'accepted orientation every offered shift index x slab options (quick: plain + one option tuple rotating '
             'through the full menu, thorough: full menu) and, for StackingFault, every shift index x every fault '
             'position between consecutive atomic layers (quick: every position for the first and last shift index, '
@@ -991,7 +993,7 @@ def gen():
         for h in pl:
             for cut in CUTS:
                 n += 1
-                if not THOROUGH and cut != 'c' and max(abs(x) for x in h) > 1:
+                if not THOROUGH and max(abs(x) for x in h) > 1 and (cut != 'c' or next(x for x in h if x) < 0):
                     continue
                 yield 'slab', {'cell': ci, 'hkl': h, 'cut': cut, 'n': n}
     for ci, cell in enumerate(CELLS):
